@@ -143,8 +143,9 @@ PROPS = {
         assumptions=['at the excluded point "start; start" the real code forwards two starts (unreachable from the daemon)'],
     ),
     'C07': dict(
-        lean=['Props.C07', 'Props.FactsProc'],
-        streams=['detector'],
+        lean=['Props.C07', 'Props.FactsProc', 'Props.PipeC09'],
+        streams=['detector', 'processor'],
+        project={'processor': r'^< det'},
         rule=DET_RULE, trusted=DET_TRUSTED,
         assumptions=['fixed threshold, no FFC-affected frame (C09 covers FFC)', 'count-thresh >= 1', 'pixel values < 65536 (uint16 in the real code)'],
     ),
